@@ -17,7 +17,7 @@ pub enum S1 {
     #[regex("[0-9]+")] Num,
 }
 pub static S1_DEF: Def = Def {
-    name: "S1", utf8: false, decide: no_callbacks,
+    name: "S1", utf8: false, decide: no_callbacks, log_callbacks: false, default_err: plain_default,
     pats: &[
         Pat { p: P::Plus(&P::Class(&[(b' ', b' '), (b'\t', b'\t')])), prio: 2, act: Act::Skip },
         Pat { p: P::Plus(&LOWER), prio: 2, act: Act::Tok(1) },
@@ -25,7 +25,7 @@ pub static S1_DEF: Def = Def {
         Pat { p: P::Plus(&DIGIT), prio: 2, act: Act::Tok(3) },
     ],
 };
-corpus_impl!(S1, bytes, S1_DEF, |t| match t { S1::Word => 1, S1::Eq => 2, S1::Num => 3 }, |_e| 0, |_x| (0, true));
+corpus_impl!(S1, bytes, S1_DEF, |t| match t { S1::Word => 1, S1::Eq => 2, S1::Num => 3 }, |_e| 0, |_x| (0, true, 0, 0));
 pub fn s1_skip_byte(b: u8) -> bool { b == b' ' || b == b'\t' }
 
 // ---- S2: skip by literal, skip through the `logos::skip` callback on a variant, two-byte skip literal sharing a prefix with a token
@@ -39,7 +39,7 @@ pub enum S2 {
     #[token("->")] Arrow,
 }
 pub static S2_DEF: Def = Def {
-    name: "S2", utf8: false, decide: no_callbacks,
+    name: "S2", utf8: false, decide: no_callbacks, log_callbacks: false, default_err: plain_default,
     pats: &[
         Pat { p: P::Lit(b"\n"), prio: 2, act: Act::Skip },
         Pat { p: P::Lit(b"--"), prio: 4, act: Act::Skip },
@@ -48,5 +48,5 @@ pub static S2_DEF: Def = Def {
         Pat { p: P::Lit(b"->"), prio: 4, act: Act::Tok(4) },
     ],
 };
-corpus_impl!(S2, bytes, S2_DEF, |t| match t { S2::DashDash => 1, S2::Minus => 2, S2::Letter => 3, S2::Arrow => 4 }, |_e| 0, |_x| (0, true));
+corpus_impl!(S2, bytes, S2_DEF, |t| match t { S2::DashDash => 1, S2::Minus => 2, S2::Letter => 3, S2::Arrow => 4 }, |_e| 0, |_x| (0, true, 0, 0));
 pub fn s2_skip_byte(b: u8) -> bool { b == b'\n' || b == b'-' }
